@@ -183,7 +183,14 @@ func evString(evs []ovEvent) string {
 func c14Impl(old, nw []byte, evs []ovEvent, rng *wvlib.Rng) (string, []byte, error) {
 	ovFile := &wvlib.MemFile{}
 	oldR := bytes.NewReader(old)
-	ow, err := overlay.NewOverlayWriter(oldR, 0, ovFile, 0)
+	var oldSrc io.Reader = oldR
+	shortOld := (len(old)+len(nw)+len(evs))%3 == 0
+	if shortOld {
+		// the old file through a reader that hands out fewer bytes than asked for (io.Reader allows it at any
+		// time): the overlay, op for op, must be what full reads give
+		oldSrc = &c14ShortReader{r: oldR, rng: wvlib.NewRng(uint64(len(old)) + 7)}
+	}
+	ow, err := overlay.NewOverlayWriter(oldSrc, 0, ovFile, 0)
 	if err != nil {
 		return "", nil, err
 	}
@@ -214,7 +221,11 @@ func c14Impl(old, nw []byte, evs []ovEvent, rng *wvlib.Rng) (string, []byte, err
 				return "", nil, err
 			}
 			ovFile.Seek(oo, io.SeekStart)
-			ow, err = overlay.NewOverlayWriter(oldR, ro, ovFile, oo)
+			oldSrc = oldR
+			if shortOld {
+				oldSrc = &c14ShortReader{r: oldR, rng: wvlib.NewRng(uint64(ro) + 11)}
+			}
+			ow, err = overlay.NewOverlayWriter(oldSrc, ro, ovFile, oo)
 			if err != nil {
 				return "", nil, err
 			}
@@ -559,4 +570,17 @@ func runC14(env *Env) {
 		R.ModelLines += m.Lines
 		m.Close()
 	}
+}
+
+// c14ShortReader hands out fewer bytes than asked for (never zero, never an error of its own).
+type c14ShortReader struct {
+	r   io.Reader
+	rng *wvlib.Rng
+}
+
+func (s *c14ShortReader) Read(p []byte) (int, error) {
+	if len(p) > 1 {
+		p = p[:1+s.rng.Intn(len(p))]
+	}
+	return s.r.Read(p)
 }
